@@ -126,11 +126,13 @@ IterVerdict ==
   ELSE IF Len(C.it) # Len(Ops) \/ \E k \in 1..Len(Ops) : C.it[k].loc # Ops[k].loc THEN "restricted-iteration:default"
   ELSE "ok"
 
+\* a documented call on a valid circuit that raised is a verdict of the clause the call belongs to
 Verdict ==
-  LET T == TLCEval(SemTable(Ops, R))
-      a == SemVerdict(T)
-  IN IF a # "ok" THEN a
-     ELSE LET b == ParamVerdict IN IF b # "ok" THEN b ELSE IterVerdict
+  IF Len(C.raised) > 0 THEN C.raised[1].clause \o ":raised:" \o C.raised[1].call
+  ELSE LET T == TLCEval(SemTable(Ops, R))
+           a == SemVerdict(T)
+       IN IF a # "ok" THEN a
+          ELSE LET b == ParamVerdict IN IF b # "ok" THEN b ELSE IterVerdict
 
 Init == tid \in 1..Len(Cases)
 Next == UNCHANGED tid
